@@ -134,6 +134,8 @@ WellFormedF(fs, ts, i, coarse) ==
                     /\ fs.rafter /\ fs.last \in {"A", "R", "B", "D"}
                     /\ ~(fs.lastpct /\ t.v = "d" /\ fs.last = "R")
                     /\ ((\E o \in fs.open : o[1] = t.n) => (CHOOSE o \in fs.open : o[1] = t.n)[2] # fs.cur)
+                    \* CGsmiles: the order of a ring bond is written at the opening marker only
+                    /\ ((coarse /\ fs.last = "B") => ~\E o \in fs.open : o[1] = t.n)
     [] t.k = "(" -> /\ fs.last \in {"A", "R", ")", "D"} \cup (IF coarse THEN {"B"} ELSE {})
                     /\ fs.prev # -1
                     /\ NextIn(ts, i, IF coarse THEN {"A"} ELSE {"A", "Z", "B"})
